@@ -36,8 +36,10 @@ class UnpicklableError(Exception):
     def __reduce__(self): raise TypeError("this exception cannot be pickled")
 
 
-def task(i, c, d, fail, transport=None):
+def task(i, c, d, fail, transport=None, seq=False):
     lp = os.path.join(d, "events.log")
+    # n_jobs == 1: joblib's in-caller path, no backend: the caller dispatches the one-task batch when it starts it (as in pl1)
+    if seq: log(lp, ev="Submit", c=c, lo=i, hi=i + 1)
     log(lp, ev="TStart", c=c, i=i)
     gate = os.path.join(d, "go_%d_%d" % (c, i)); allg = os.path.join(d, "go_all_%d" % c)
     t0 = time.time()
@@ -46,10 +48,12 @@ def task(i, c, d, fail, transport=None):
         if time.time() - t0 > 30: break
     if i in fail:
         log(lp, ev="TEnd", c=c, i=i, ok=False)
+        if seq: log(lp, ev="CbEnd", c=c, lo=i, hi=i + 1, ok=False)
         if transport == "result": return Unpicklable()          # the task ends, its outcome cannot reach the caller
         if transport == "exception": raise UnpicklableError(c, i)
         raise TaskError(c, i)
     log(lp, ev="TEnd", c=c, i=i, ok=True)
+    if seq: log(lp, ev="CbEnd", c=c, lo=i, hi=i + 1, ok=True)
     return (c, i)
 
 
@@ -109,7 +113,7 @@ def one_run(cfg, d, runid):
                     log(lp, ev="PullStop", c=tag, th=me); raise StopIteration
                 i = q.i; q.i += 1
                 log(lp, ev="Pull", c=tag, i=i, th=me)
-                return delayed(task)(i, tag, d, fail, cfg.get("transport") if callno == 0 else None)
+                return delayed(task)(i, tag, d, fail, cfg.get("transport") if callno == 0 else None, nj == 1)
         log(lp, ev="CallStart", c=tag, n=n, mode=MODES[cfg["mode"]], nj=nj, maxb=cfg["bs"], pre=pre, bound=pre + 2 * nj * cfg["bs"], slack=3, ticks=-1, serial=True)
         stop = threading.Event()
 
